@@ -32,6 +32,7 @@ type SimSocket struct {
 	mu      sync.Mutex
 	waiting int
 	ch      chan *Dgram
+	burst   chan []*Dgram
 	closed  chan struct{}
 	once    sync.Once
 	// Bufs remembers the (pooled) buffer each delivered datagram was copied into, by datagram ID.
@@ -39,7 +40,7 @@ type SimSocket struct {
 }
 
 func NewSimSocket() *SimSocket {
-	return &SimSocket{ch: make(chan *Dgram), closed: make(chan struct{}), Bufs: map[int][]byte{}}
+	return &SimSocket{ch: make(chan *Dgram), burst: make(chan []*Dgram), closed: make(chan struct{}), Bufs: map[int][]byte{}}
 }
 
 var errSockClosed = errors.New("use of closed network connection")
@@ -63,6 +64,43 @@ func (s *SimSocket) ReadFrom(b []byte) (int, net.Addr, error) {
 		return 0, nil, errSockClosed
 	}
 }
+
+// ReadBatch makes SimSocket a statsd.BatchReader (hook H5): a reader parks here and is handed either
+// one datagram (Deliver) or a burst (DeliverBurst), which it returns as one batch - what a UDP socket
+// read through recvmmsg does when several datagrams are waiting.
+func (s *SimSocket) ReadBatch(ms []statsd.Message) (int, error) {
+	s.mu.Lock()
+	s.waiting++
+	s.mu.Unlock()
+	var ds []*Dgram
+	select {
+	case d := <-s.ch:
+		ds = []*Dgram{d}
+	case ds = <-s.burst:
+	case <-s.closed:
+		s.mu.Lock()
+		s.waiting--
+		s.mu.Unlock()
+		return 0, errSockClosed
+	}
+	if len(ds) > len(ms) {
+		panic(fmt.Sprintf("SimSocket: burst of %d datagrams for a reader with batch size %d", len(ds), len(ms)))
+	}
+	s.mu.Lock()
+	s.waiting--
+	for i, d := range ds {
+		b := ms[i].Buffers[0]
+		s.Bufs[d.ID] = b[:cap(b)]
+		ms[i].N = copy(b, d.Payload)
+		ms[i].Addr = d.Addr
+	}
+	s.mu.Unlock()
+	return len(ds), nil
+}
+
+// DeliverBurst hands ds to one parked reader as a single batch (len(ds) must not exceed the
+// receiver's batch size). The caller must have checked Waiting() > 0.
+func (s *SimSocket) DeliverBurst(ds []*Dgram) { s.burst <- ds }
 
 // Waiting is the number of readers parked in ReadFrom (stable at quiescence).
 func (s *SimSocket) Waiting() int { s.mu.Lock(); defer s.mu.Unlock(); return s.waiting }
@@ -262,4 +300,18 @@ func (w *W1) Send(c int, payload []byte) (int, bool) {
 	w.nextID++
 	w.Sock.Deliver(&Dgram{ID: w.nextID, Payload: payload, Addr: ClientAddr(c)})
 	return w.nextID, true
+}
+
+// SendBurst delivers several datagrams to one parked reader as a single batch (hook H5).
+func (w *W1) SendBurst(clients []int, payloads [][]byte) bool {
+	if w.Sock.Waiting() == 0 {
+		return false
+	}
+	var ds []*Dgram
+	for i, p := range payloads {
+		w.nextID++
+		ds = append(ds, &Dgram{ID: w.nextID, Payload: p, Addr: ClientAddr(clients[i])})
+	}
+	w.Sock.DeliverBurst(ds)
+	return true
 }
